@@ -28,6 +28,12 @@ import (
 // per target (by interval ratio: 30 = 5 min, 360 = 1 h): the rollup merge fails
 var rollupFails sync.Map
 
+// ... and whether a merge of that target was asked for and did fail since the flag was last cleared: a run whose target
+// work has nothing to merge (the marked files are no longer in level 0 of the source: a compaction came first) calls no
+// merger and succeeds - C04's open finding source-compaction-before-rollup; for the files of the source family that run
+// is a success like any other
+var rollupFailed sync.Map
+
 type rollupMerger struct {
 	fl    kv.Flusher
 	ratio uint16
@@ -41,6 +47,7 @@ func (m *rollupMerger) Init(params map[string]interface{}) {
 func (m *rollupMerger) Merge(key uint32, values [][]byte) error {
 	if m.ratio != 0 {
 		if v, ok := rollupFails.Load(m.ratio); ok && v.(bool) {
+			rollupFailed.Store(m.ratio, true)
 			return errors.New("injected: the rollup merge fails")
 		}
 	}
@@ -148,6 +155,8 @@ func runRollupHistory(out *vh.Out, root string, id int, name string, script []st
 			ok0, ok1 := op[1] == '1', op[2] == '1'
 			rollupFails.Store(uint16(30), !ok0)
 			rollupFails.Store(uint16(360), !ok1)
+			rollupFailed.Store(uint16(30), false)
+			rollupFailed.Store(uint16(360), false)
 			before := sweeps.Load()
 			for try := 0; try < 200; try++ {
 				source.ForceRollup()
@@ -160,6 +169,13 @@ func runRollupHistory(out *vh.Out, root string, id int, name string, script []st
 			time.Sleep(2 * time.Millisecond)
 			rollupFails.Store(uint16(30), false)
 			rollupFails.Store(uint16(360), false)
+			// the work of a target failed iff its merger was called and returned the injected error
+			if v, ok := rollupFailed.Load(uint16(30)); !ok || !v.(bool) {
+				ok0 = true
+			}
+			if v, ok := rollupFailed.Load(uint16(360)); !ok || !v.(bool) {
+				ok1 = true
+			}
 			evs = append(evs, fmt.Sprintf("(Rollup.ERollup %s %s)", vh.Bool(ok0), vh.Bool(ok1)))
 			if !ok0 || !ok1 {
 				fails++
